@@ -6,6 +6,7 @@ open Pcore.Lat
 #print axioms C04_ptype
 #print axioms C04_common_fam
 #print axioms C04_ptype_of_family
+#print axioms C04_generalize_partial
 #print axioms C04_accepts_sound_partial
 #print axioms C04_common_unit
 #print axioms C04_common_accepts_left
